@@ -3276,6 +3276,11 @@ def rule_F31(prog):
                     init = unwrap(st["init"])
                     if isinstance(init, dict) and init.get("k") == "call" and origin(init["f"]).rsplit("::", 1)[-1] in ("common_suffix_len", "common_prefix_len"):
                         measured.add(st["pat"]["id"])
+                    # the same measurement written inline: `a.zip(b).take_while(|..| new[j] == old[i]).count()`
+                    if isinstance(init, dict) and init.get("k") == "mcall" and init["name"] == "count" and \
+                            find_nodes(init["recv"], lambda n: n["k"] == "mcall" and n["name"] == "take_while") and \
+                            find_nodes(init["recv"], lambda n: n["k"] == "mcall" and n["name"] == "zip"):
+                        measured.add(st["pat"]["id"])
                 if not measured:
                     continue
                 r.instances += 1
